@@ -39,7 +39,8 @@ RULE = (
     "each pair for programs of weight<=WP, and for F1 programs each single probe raising the BaseException-only kind); canonical = printed files + armed set; cases whose armed probes do not all "
     "fire and include_error_handler cases that do not differ from the off case are dropped as duplicates of a smaller "
     "case. Each case is run under every handler that applies: none (render_unicode), caller of render_context, "
-    "error_handler returning True, and for programs of weight<=WF error_handler returning False and format_exceptions. "
+    "error_handler returning True, and for programs of weight<=WF error_handler returning False and format_exceptions "
+    "(render_unicode, render() to bytes with output_encoding, render_context with the caller's Context). "
     "Non-trivial = a probe fires inside >=1 stateful construct and something is written after the exception was "
     "handled (% try, include_error_handler or error_handler)."
 )
@@ -76,7 +77,8 @@ LETTER_POOLS = [
     "kq\U0001d11ezéw\U0001f600hj",
 ]
 
-MODES_ESC = ("plain", "rc", "eh", "ehf", "fe")
+MODES_ESC = ("plain", "rc", "eh", "ehf", "fe", "feb", "ferc")
+WORLD_OF = {"rc": "plain", "ferc": "fe"}  # modes that use the templates of another mode
 MODES_OK = ("plain", "rc")
 MODES_BASE = ("plain", "rc", "ehf")  # BaseException-only raise kind: none, caller of render_context, error_handler returning False
 
@@ -202,6 +204,9 @@ class World:
             kw["error_handler"] = env.EHF
         elif mode == "fe":
             kw["format_exceptions"] = True
+        elif mode == "feb":
+            kw["format_exceptions"] = True
+            kw["output_encoding"] = "utf-8"  # render() returns bytes: the other branch of _render_error
         if ieh:
             kw["include_error_handler"] = env.IEHF if ieh == "F" else env.IEH
         self.lookup = TemplateLookup(**kw)
@@ -248,6 +253,20 @@ def run_mode(world, mode, targets, r1, r2, cached):
             ctx = Context(buf, T=T)
             t.render_context(ctx)
             out = buf.getvalue()
+        elif mode == "ferc":
+            # format_exceptions with a Context and buffer of the caller: the page can only be in the Context's current buffer
+            buf = io.StringIO()
+            ctx = Context(buf, T=T)
+            t.render_context(ctx)
+            out = ctx._buffer_stack[-1].getvalue()
+            if isinstance(out, bytes):
+                out = out.decode("utf-8", "replace")
+        elif mode == "feb":
+            out = t.render(T=T)
+            if not isinstance(out, bytes):
+                bad.append(("fe-bytes", "render() with output_encoding does not return bytes", "bytes", type(out).__name__))
+                return bad, nrender
+            out = out.decode("utf-8", "replace")
         else:
             out = t.render_unicode(T=T)
     except (env.Boom, env.BoomBase) as e:
@@ -282,7 +301,7 @@ def run_mode(world, mode, targets, r1, r2, cached):
             bad.append(("eh", "error_handler returned True but the exception propagates", r1["out"] + "[EH]", repr(exc)))
         elif out != r1["out"] + "[EH]":
             bad.append(("eh-output", "output with error_handler differs (direct text + handler text expected)", r1["out"] + "[EH]", out))
-    elif mode == "fe":
+    elif mode in ("fe", "feb", "ferc"):
         if exc is not None:
             bad.append(("fe", "format_exceptions set but the exception propagates", "error page", repr(exc)))
         elif not ("Boom" in out and "kaboom#%d" % esc in out):
@@ -407,7 +426,9 @@ class Runner:
             for mode in modes:
                 if mode in ("fe", "ehf") and not (fe_all or r1["base"]):
                     continue
-                wk = (mode if mode != "rc" else "plain", ieh)
+                if mode in ("feb", "ferc") and not (fe_all and len(targets) == 1):
+                    continue
+                wk = (WORLD_OF.get(mode, mode), ieh)
                 w = worlds.get(wk)
                 if w is None:
                     try:
@@ -493,7 +514,7 @@ def replay(case):
     targets = tuple(case["targets"])
     r1, r2 = reference(prog, case["ieh"] is True, targets)
     mode = case["mode"]
-    w = World(texts, mode if mode != "rc" else "plain", case["ieh"])
+    w = World(texts, WORLD_OF.get(mode, mode), case["ieh"])
     bad, _ = run_mode(w, mode, targets, r1, r2, has_cached(prog))
     if bad:
         return False, "reproduced: %r\nfiles=%r targets=%r" % (bad[0], texts, targets)
